@@ -34,6 +34,8 @@ type sched struct {
 	Phase  string
 	NSess  int
 	Queued int
+	// Dual: server A listens on the dual-stack wildcard address, so its IPv4 clients appear as IPv4-mapped addresses
+	Dual bool
 }
 
 var phases = []string{
@@ -80,6 +82,9 @@ func startWorld(e *core.Env, ci int, s *sched, nat string, opt string) (*world, 
 	soA, soB := so, so
 	soA.TCP = strings.HasPrefix(s.S, "socks5")
 	soB.TCP = strings.HasPrefix(s.C, "socks5")
+	if s.Dual {
+		soA.Host = "[::]"
+	}
 	cfg := map[string]any{}
 	nsrv := 1
 	switch {
@@ -151,7 +156,7 @@ func natFor(S, C string) (string, time.Duration) {
 
 func runLifecycle(e *core.Env) {
 	rec := e.Rec
-	rec.Rule("lifecycle: one case = (relay kind via server protocol S: NAT relay for socks5/none, session relay for SS2022; upstream protocol C; batch mode; lifecycle phase from {evict-and-restart, stop-idle, stop-established, stop-queued (bursts in flight), stop-double, stop-init-resolver (initialiser held in name resolution), stop-hook-rearm / stop-hook-swap (goroutine held at a verif hook while Stop runs), init-reject, init-upstream-refused, evict-unsendable, failed-start-{queued, hook-rearm, init-resolver} (a later server, whose listen address is a held host name, fails to start while the relay carries sessions: Run stops the relay by itself, its context is not cancelled from outside)}; sessions 1..24); after Run returns: goroutine count and socket count back to the pre-start baseline, listener port reusable, virtual time consumed by Stop < natTimeout/2; class = (S, C, batch, phase, hook reached)")
+	rec.Rule("lifecycle: one case = (relay kind via server protocol S: NAT relay for socks5/none, session relay for SS2022; upstream protocol C; batch mode; lifecycle phase from {evict-and-restart, stop-idle, stop-established, stop-queued (bursts in flight), stop-double, stop-init-resolver (initialiser held in name resolution), stop-hook-rearm / stop-hook-swap (goroutine held at a verif hook while Stop runs), init-reject, init-upstream-refused, evict-unsendable, failed-start-{queued, hook-rearm, init-resolver} (a later server, whose listen address is a held host name, fails to start while the relay carries sessions: Run stops the relay by itself, its context is not cancelled from outside)}; sessions 1..24; listener on 127.0.0.1 or on the dual-stack wildcard address, where IPv4 clients appear IPv4-mapped); after Run returns: goroutine count and socket count back to the pre-start baseline, listener port reusable, virtual time consumed by Stop < natTimeout/2; class = (S, C, batch, phase, hook reached)")
 	type job struct{ s sched }
 	var jobs []job
 	// multi-user SS2022 servers: their credential store would make the service register a SIGUSR1 handler, after which
@@ -165,7 +170,11 @@ func runLifecycle(e *core.Env) {
 		for _, b := range []string{"", "no"} {
 			for _, ph := range phases {
 				for r := 0; r < reps; r++ {
-					jobs = append(jobs, job{sched{S: p[0], C: p[1], Batch: b, Phase: ph}})
+					jobs = append(jobs, job{sched{S: p[0], C: p[1], Batch: b, Phase: ph, Dual: (len(jobs)+r)%3 == 1}})
+				}
+				// phases in which a session ends and the same client comes back: both listener kinds, always
+				if ph == "evict-and-restart" || ph == "init-reject" {
+					jobs = append(jobs, job{sched{S: p[0], C: p[1], Batch: b, Phase: ph, Dual: true}})
 				}
 			}
 		}
@@ -211,7 +220,7 @@ func lifecycleCase(e *core.Env, ci int, r *core.RNG, s *sched) {
 		return
 	}
 	violate := func(kind, format string, a ...any) {
-		rec.Violate("lifecycle", ci, core.Sig("kind", kind, "part", "lifecycle", "phase", s.Phase, "S", s.S, "C", s.C, "batch", s.Batch),
+		rec.Violate("lifecycle", ci, core.Sig("kind", kind, "part", "lifecycle", "phase", s.Phase, "S", s.S, "C", s.C, "batch", s.Batch, "dual", fmt.Sprint(s.Dual)),
 			map[string]any{"schedule": s, "nat_timeout": natStr, "logs": w.inst.LogLines(25)}, format, a...)
 	}
 	var peers []*svx.UDPPeer
@@ -316,7 +325,7 @@ func lifecycleCase(e *core.Env, ci int, r *core.RNG, s *sched) {
 			uc.Close()
 		}
 		rec.Count("stops_audited", 1)
-		rec.Class("%s>%s/batch=%q/%s/hook=%v", s.S, s.C, s.Batch, s.Phase, hookReached)
+		rec.Class("%s>%s/batch=%q/%s/hook=%v/dual=%v", s.S, s.C, s.Batch, s.Phase, hookReached, s.Dual)
 		if ci%9 == 0 {
 			rec.Sample(8, map[string]any{"schedule": s, "stop_virtual": sr.Virtual.String(), "goroutines_before": baseG, "goroutines_after": runtime.NumGoroutine()})
 		}
